@@ -16,16 +16,21 @@ import (
 	"flag"
 	"fmt"
 	"go/ast"
+	"go/importer"
 	"go/parser"
 	"go/printer"
 	"go/token"
+	"go/types"
 	"os"
+	"path/filepath"
 	"strconv"
+	"strings"
 )
 
 var (
 	simPath  = flag.String("sim", "github.com/google/badwolf/xverif/sim", "import path of the sim package")
 	sitesOut = flag.String("sites", "", "write site table (json) here")
+	mapsOnly = flag.String("mapsonly", "", "comma separated files that only get their map ranges rewritten (no yields)")
 )
 
 type site struct {
@@ -187,84 +192,206 @@ func walkClauses(b *ast.BlockStmt) {
 	}
 }
 
+// ---------------------------------------------------------------------------
+// Map ranges. Go randomises map iteration with a runtime-private seed the
+// simulator cannot own. Every `for k, v := range m` over a map is therefore
+// rewritten to iterate xsim.Pairs(m): keys sorted, then permuted with a seed
+// the simulator owns (sim.SetMapSeed). Entries deleted during the loop are
+// skipped and current values are read, as the language specifies.
+
+var (
+	mapN    int
+	mapStat int
+)
+
+func rewriteMapRanges(f *ast.File, info *types.Info) {
+	ast.Inspect(f, func(n ast.Node) bool {
+		rs, ok := n.(*ast.RangeStmt)
+		if !ok {
+			return true
+		}
+		tv, ok := info.Types[rs.X]
+		if !ok {
+			return true
+		}
+		if _, isMap := tv.Type.Underlying().(*types.Map); !isMap {
+			return true
+		}
+		mapN++
+		mapStat++
+		kv := ast.NewIdent(fmt.Sprintf("xsimKV%d", mapN))
+		xk, xv, xok := ast.NewIdent(fmt.Sprintf("xsimK%d", mapN)), ast.NewIdent(fmt.Sprintf("xsimV%d", mapN)), ast.NewIdent(fmt.Sprintf("xsimOK%d", mapN))
+		blank := func(e ast.Expr) bool {
+			id, ok := e.(*ast.Ident)
+			return e == nil || (ok && id.Name == "_")
+		}
+		var pre []ast.Stmt
+		get := &ast.CallExpr{Fun: &ast.SelectorExpr{X: kv, Sel: ast.NewIdent("Get")}}
+		lhsK, lhsV := ast.Expr(ast.NewIdent("_")), ast.Expr(ast.NewIdent("_"))
+		if rs.Tok == token.DEFINE {
+			if !blank(rs.Key) {
+				lhsK = rs.Key
+			}
+			if !blank(rs.Value) {
+				lhsV = rs.Value
+			}
+			pre = append(pre, &ast.AssignStmt{Lhs: []ast.Expr{lhsK, lhsV, xok}, Tok: token.DEFINE, Rhs: []ast.Expr{get}})
+			pre = append(pre, &ast.IfStmt{Cond: &ast.UnaryExpr{Op: token.NOT, X: xok}, Body: &ast.BlockStmt{List: []ast.Stmt{&ast.BranchStmt{Tok: token.CONTINUE}}}})
+		} else {
+			pre = append(pre, &ast.AssignStmt{Lhs: []ast.Expr{xk, xv, xok}, Tok: token.DEFINE, Rhs: []ast.Expr{get}})
+			pre = append(pre, &ast.IfStmt{Cond: &ast.UnaryExpr{Op: token.NOT, X: xok}, Body: &ast.BlockStmt{List: []ast.Stmt{&ast.BranchStmt{Tok: token.CONTINUE}}}})
+			// keep the unused temporaries used
+			pre = append(pre, &ast.AssignStmt{Lhs: []ast.Expr{ast.NewIdent("_"), ast.NewIdent("_")}, Tok: token.ASSIGN, Rhs: []ast.Expr{xk, xv}})
+			if !blank(rs.Key) {
+				pre = append(pre, &ast.AssignStmt{Lhs: []ast.Expr{rs.Key}, Tok: token.ASSIGN, Rhs: []ast.Expr{xk}})
+			}
+			if !blank(rs.Value) {
+				pre = append(pre, &ast.AssignStmt{Lhs: []ast.Expr{rs.Value}, Tok: token.ASSIGN, Rhs: []ast.Expr{xv}})
+			}
+		}
+		rs.X = call("Pairs", rs.X)
+		rs.Key, rs.Value, rs.Tok = ast.NewIdent("_"), kv, token.DEFINE
+		rs.Body.List = append(pre, rs.Body.List...)
+		return true
+	})
+}
+
+func fatal(a ...any) {
+	fmt.Fprintln(os.Stderr, append([]any{"instr:"}, a...)...)
+	os.Exit(2)
+}
+
 func main() {
 	flag.Parse()
+	full := map[string]bool{}
 	for _, fn := range flag.Args() {
-		f, err := parser.ParseFile(fset, fn, nil, 0) // comments dropped on purpose
-		if err != nil {
-			fmt.Fprintln(os.Stderr, "instr:", err)
-			os.Exit(2)
+		full[filepath.Clean(fn)] = true
+	}
+	maps := map[string]bool{}
+	for _, fn := range strings.Split(*mapsOnly, ",") {
+		if fn != "" {
+			maps[filepath.Clean(fn)] = true
 		}
-		usesSync := false
-		ast.Inspect(f, func(n ast.Node) bool {
-			if se, ok := n.(*ast.SelectorExpr); ok {
-				if id, ok := se.X.(*ast.Ident); ok && id.Name == "sync" && id.Obj == nil {
-					if se.Sel.Name == "Mutex" || se.Sel.Name == "RWMutex" {
-						id.Name = "xsim"
-					} else {
-						usesSync = true
-					}
+	}
+	byDir := map[string][]string{}
+	var dirs []string
+	for fn := range full {
+		byDir[filepath.Dir(fn)] = append(byDir[filepath.Dir(fn)], fn)
+	}
+	for fn := range maps {
+		if !full[fn] {
+			byDir[filepath.Dir(fn)] = append(byDir[filepath.Dir(fn)], fn)
+		}
+	}
+	for d := range byDir {
+		dirs = append(dirs, d)
+	}
+	// one importer for all packages: dependencies are type-checked once
+	imp := importer.ForCompiler(fset, "source", nil)
+	for _, dir := range dirs {
+		pkgs, err := parser.ParseDir(fset, dir, func(fi os.FileInfo) bool { return !strings.HasSuffix(fi.Name(), "_test.go") }, 0) // comments dropped on purpose
+		if err != nil {
+			fatal(err)
+		}
+		for _, pkg := range pkgs {
+			var files []*ast.File
+			var names []string
+			for name, f := range pkg.Files {
+				files = append(files, f)
+				names = append(names, name)
+			}
+			info := &types.Info{Types: map[ast.Expr]types.TypeAndValue{}}
+			conf := types.Config{Importer: imp, Error: func(error) {}}
+			abs, _ := filepath.Abs(dir)
+			conf.Check(abs, fset, files, info) // best effort: untyped ranges are left alone
+			for i, f := range files {
+				fn := filepath.Clean(names[i])
+				if !full[fn] && !maps[fn] {
+					continue
+				}
+				rewriteMapRanges(f, info)
+				if full[fn] {
+					instrumentFile(f)
+				} else {
+					addImport(f, false)
+				}
+				var buf bytes.Buffer
+				if err := printer.Fprint(&buf, token.NewFileSet(), f); err != nil {
+					fatal(err)
+				}
+				if err := os.WriteFile(fn, buf.Bytes(), 0o644); err != nil {
+					fatal(err)
 				}
 			}
-			return true
-		})
-		for _, d := range f.Decls {
-			if fd, ok := d.(*ast.FuncDecl); ok && fd.Body != nil {
-				ast.Walk(visitor{}, fd.Body)
-			} else if gd, ok := d.(*ast.GenDecl); ok {
-				// function literals in package-level var initialisers
-				ast.Inspect(gd, func(n ast.Node) bool {
-					if fl, ok := n.(*ast.FuncLit); ok {
-						ast.Walk(visitor{}, fl.Body)
-						return false
-					}
-					return true
-				})
-			}
-		}
-		// import xsim; keep "sync" used.
-		imp := &ast.ImportSpec{Name: ast.NewIdent("xsim"), Path: &ast.BasicLit{Kind: token.STRING, Value: strconv.Quote(*simPath)}}
-		importsSync := false
-		for _, is := range f.Imports {
-			if is.Path.Value == `"sync"` {
-				importsSync = true
-			}
-		}
-		gd := &ast.GenDecl{Tok: token.IMPORT, Specs: []ast.Spec{imp}}
-		// insert after the existing import decls
-		idx := 0
-		for i, d := range f.Decls {
-			if g, ok := d.(*ast.GenDecl); ok && g.Tok == token.IMPORT {
-				idx = i + 1
-			}
-		}
-		decls := append([]ast.Decl{}, f.Decls[:idx]...)
-		decls = append(decls, gd)
-		if importsSync && !usesSync {
-			decls = append(decls, &ast.GenDecl{Tok: token.VAR, Specs: []ast.Spec{&ast.ValueSpec{
-				Names: []*ast.Ident{ast.NewIdent("_")},
-				Type:  &ast.SelectorExpr{X: ast.NewIdent("sync"), Sel: ast.NewIdent("Once")},
-			}}})
-		}
-		decls = append(decls, &ast.GenDecl{Tok: token.VAR, Specs: []ast.Spec{&ast.ValueSpec{
-			Names:  []*ast.Ident{ast.NewIdent("_")},
-			Values: []ast.Expr{&ast.SelectorExpr{X: ast.NewIdent("xsim"), Sel: ast.NewIdent("Yield")}},
-		}}})
-		decls = append(decls, f.Decls[idx:]...)
-		f.Decls = decls
-		var buf bytes.Buffer
-		if err := printer.Fprint(&buf, token.NewFileSet(), f); err != nil {
-			fmt.Fprintln(os.Stderr, "instr:", err)
-			os.Exit(2)
-		}
-		if err := os.WriteFile(fn, buf.Bytes(), 0o644); err != nil {
-			fmt.Fprintln(os.Stderr, "instr:", err)
-			os.Exit(2)
 		}
 	}
 	if *sitesOut != "" {
 		b, _ := json.Marshal(sites)
 		os.WriteFile(*sitesOut, b, 0o644)
 	}
-	fmt.Printf("instr: %d sites in %d files\n", len(sites), flag.NArg())
+	fmt.Printf("instr: %d yield sites, %d map ranges in %d files\n", len(sites), mapStat, len(full)+len(maps))
+}
+
+// addImport imports the sim package as xsim and keeps both xsim and (if it is
+// imported) sync referenced.
+func addImport(f *ast.File, syncUnused bool) {
+	imp := &ast.ImportSpec{Name: ast.NewIdent("xsim"), Path: &ast.BasicLit{Kind: token.STRING, Value: strconv.Quote(*simPath)}}
+	gd := &ast.GenDecl{Tok: token.IMPORT, Specs: []ast.Spec{imp}}
+	idx := 0
+	for i, d := range f.Decls {
+		if g, ok := d.(*ast.GenDecl); ok && g.Tok == token.IMPORT {
+			idx = i + 1
+		}
+	}
+	decls := append([]ast.Decl{}, f.Decls[:idx]...)
+	decls = append(decls, gd)
+	if syncUnused {
+		decls = append(decls, &ast.GenDecl{Tok: token.VAR, Specs: []ast.Spec{&ast.ValueSpec{
+			Names: []*ast.Ident{ast.NewIdent("_")},
+			Type:  &ast.SelectorExpr{X: ast.NewIdent("sync"), Sel: ast.NewIdent("Once")},
+		}}})
+	}
+	decls = append(decls, &ast.GenDecl{Tok: token.VAR, Specs: []ast.Spec{&ast.ValueSpec{
+		Names:  []*ast.Ident{ast.NewIdent("_")},
+		Values: []ast.Expr{&ast.SelectorExpr{X: ast.NewIdent("xsim"), Sel: ast.NewIdent("Yield")}},
+	}}})
+	decls = append(decls, f.Decls[idx:]...)
+	f.Decls = decls
+}
+
+// instrumentFile inserts yields, goroutine announcements and sim mutexes.
+func instrumentFile(f *ast.File) {
+	usesSync := false
+	ast.Inspect(f, func(n ast.Node) bool {
+		if se, ok := n.(*ast.SelectorExpr); ok {
+			if id, ok := se.X.(*ast.Ident); ok && id.Name == "sync" && id.Obj == nil {
+				if se.Sel.Name == "Mutex" || se.Sel.Name == "RWMutex" {
+					id.Name = "xsim"
+				} else {
+					usesSync = true
+				}
+			}
+		}
+		return true
+	})
+	for _, d := range f.Decls {
+		if fd, ok := d.(*ast.FuncDecl); ok && fd.Body != nil {
+			ast.Walk(visitor{}, fd.Body)
+		} else if gd, ok := d.(*ast.GenDecl); ok {
+			ast.Inspect(gd, func(n ast.Node) bool {
+				if fl, ok := n.(*ast.FuncLit); ok {
+					ast.Walk(visitor{}, fl.Body)
+					return false
+				}
+				return true
+			})
+		}
+	}
+	importsSync := false
+	for _, is := range f.Imports {
+		if is.Path.Value == `"sync"` {
+			importsSync = true
+		}
+	}
+	addImport(f, importsSync && !usesSync)
 }
